@@ -58,6 +58,20 @@ def frameOps (ws : List String) : Option String :=
         | .crash s _ => "crash:" ++ s.label
         | r => if r.allocated < 2097152 then "alloc:small" else if r.allocated ≥ 50331648 then "alloc:big" else "alloc:mid")
     | _, _, _, _ => some "bad-op"
+  | ["alloc", "rows", _consumer, proto, flags, h] =>
+    -- allocation class of a row consumer (scan | scanner | mapscan | slicemap | rowdata) over a RESULT body:
+    -- `ok` = the model's allocation counter is within its bound (always, by C05.C05_rows_alloc_bound)
+    match proto.toNat?, flags.toNat?, bytes h with
+    | some proto, some flags, some body =>
+      if FrameCrash.bit flags 0 then some "ok" else
+      some (match FrameCrash.parseFrame (proto % 128) true flags 8 body with
+        | .ok (.rows m n) st =>
+          if m.cols.isEmpty then "ok"
+          else if RowsCrash.consumeUnits m n st.buf ≤ RowsCrash.consumeBound m st.buf then "ok"
+          else "over:" ++ toString (RowsCrash.consumeUnits m n st.buf)
+        | .crash s _ => "crash:" ++ s.label
+        | _ => "ok")
+    | _, _, _ => some "bad-op"
   | ["rows", proto, flags, h] =>
     match proto.toNat?, flags.toNat?, bytes h with
     | some proto, some flags, some body =>
